@@ -3,7 +3,6 @@ import MythVerif.Proofs.WsQueueTsoTac
 namespace MythVerif.WsqTso
 open MythVerif.Wsq
 
-set_option maxHeartbeats 4000000 in
 theorem t_wk2 (s s' : St) (p : Pid) (b) : Inv s → s.tpc p = .wk2 b → stepT s p = some s' → Inv s' := by
   intro h heq hs
   have hb := h.tbufE p (by simp [heq, mayBuf])
@@ -17,38 +16,29 @@ theorem t_wk2 (s s' : St) (p : Pid) (b) : Inv s → s.tpc p = .wk2 b → stepT s
     have := h.mwin 0 hpos (Or.inl (by simp; omega))
     refine ⟨by intro hA; simp [hA] at hpos, ?_⟩
     rw [List.head?_eq_getElem?, ← this, ← hlb]; simp
-  cases h
   simp only [stepT, heq, hb, viewTop_nil] at hs
   split at hs
   · rename_i hlt
     have hm := hm0 hlt
     simp at hs; subst hs
-    simp only [ownerLocked, carry, resetting, ownerFlight] at *
-    tso_finish
+    tso_fastT h p [wk2]
   · simp at hs; subst hs
-    simp only [ownerLocked, carry, resetting, ownerFlight] at *
-    tso_finish
+    tso_fastT h p [wk2]
 
-set_option maxHeartbeats 4000000 in
 theorem t_wk3 (s s' : St) (p : Pid) (b) : Inv s → s.tpc p = .wk3 b → stepT s p = some s' → Inv s' := by
   intro h heq hs
   have hb := h.tbufE p (by simp [heq, mayBuf])
-  cases h
   simp only [stepT, heq, hb, viewPtr_nil] at hs
   simp at hs; subst hs
-  simp only [ownerLocked, carry, resetting, ownerFlight] at *
-  tso_finish
+  tso_fastT h p [wk3]
 
-set_option maxHeartbeats 4000000 in
 theorem d_decline (s s' : St) (p : Pid) (b) (r) : Inv s → s.tpc p = .wkd b r →
     s' = { s with tpc := upd s.tpc p (.wk5 b) } → Inv s' := by
   intro h heq hs
-  cases h
   subst hs
-  simp only [ownerLocked, carry, resetting, ownerFlight] at *
-  tso_finish
+  tso_fastT h p []
 
-set_option maxHeartbeats 4000000 in
+set_option maxHeartbeats 1000000 in
 theorem d_accept (s s' : St) (p : Pid) (b) (r) (x : Elem) (A' : List Elem) : Inv s → s.tpc p = .wkd b r → s.A = x :: A' →
     s' = { s with tpc := upd s.tpc p (.wk4 r), A := A', lb := s.lb + 1, tr := false, flT := some x } → Inv s' := by
   intro h heq hA hs
@@ -68,9 +58,9 @@ theorem d_accept (s s' : St) (p : Pid) (b) (r) (x : Elem) (A' : List Elem) : Inv
     rcases hwin with h1 | ⟨_, h1⟩
     · exact Or.inl (by omega)
     · exact Or.inr h1
-  cases h
   subst hs
   simp only [ownerLocked, carry, resetting, ownerFlight] at *
+  tso_coreT h []
   constructor
   all_goals (try simp only [ownerLocked, carry, resetting, ownerFlight, upd_apply, applySto])
   case carryC =>
@@ -85,7 +75,7 @@ theorem d_accept (s s' : St) (p : Pid) (b) (r) (x : Elem) (A' : List Elem) : Inv
     have h1 := hmwin (k + 1) (by simp [hA]; omega) (hk2.elim (fun h => Or.inl (by omega)) Or.inr)
     simp [hA] at h1
     rw [← h1]; congr 1; omega
-  tso_rest
+  tso_goalsT h p
 
 theorem d_wkd (s s' : St) (p : Pid) (a : Bool) : Inv s → stepD s p a = some s' → Inv s' := by
   intro h hs
